@@ -247,7 +247,7 @@ def _registry():
     'C19': {'proofs': 'C19', 'streams': [stream_compose],
             'rule': 'compose stream: P1 from early-exit constructs (return in loop in if, break in nested ifs, else-less ifs, finished loops/chains, allocation churn across the GC threshold), P2 generated with disjoint names (else chains, loops, calls, allocation): P1;P2 vs P1 and P2 alone, and vs the model',
             'assumptions': []},
-    'C20': {'proofs': 'C20', 'streams': [stream_fs, stream_stdin],
+    'C20': {'proofs': 'C20', 'streams': [stream_fs, stream_fs_respell, stream_stdin],
             'rule': 'fs stream: random sequences of the 7 file built-ins over a small path tree in a scratch directory, final file-system state dumped and compared with the model; stdin stream: built binary with piped input',
             'assumptions': ['the operating system is assumed to implement std::fs as the finite-map model; permissions, symlinks, non-UTF-8 names are not exercised']},
     }
@@ -953,6 +953,27 @@ def stream_fs(ctx):
     raw = pstreams.c20_cases(ctx.rng, ctx.tier)
     cases = [{'src': pstreams.prog(r['stmts']), 'kind': r['kind'], 'files': []} for r in raw]
     diff_programs(ctx, 'fs', cases, flags='f', nontrivial=lambda s: True)
+
+
+def stream_fs_respell(ctx):
+    """metamorphic, implementation only: the same sequence of file operations with some paths spelled ./p gives the same
+    results (one file has one content whatever the spelling of its path)"""
+    raw = [r for r in pstreams.c20_cases(ctx.rng, ctx.tier) if 'respelled' in r]
+    cases = []
+    for r in raw:
+        cases.append({'src': pstreams.prog(r['stmts']), 'kind': 'plain', 'files': []})
+        cases.append({'src': pstreams.prog(r['respelled']), 'kind': 'respelled', 'files': []})
+    lines = [case_line(c, None, 'f') for c in cases]
+    impl, _model = oracle_and_model(ctx, lines, 'respel')
+    n = 0
+    for i in range(0, len(cases), 2):
+        a, b = ends_of(impl[i], with_line=False), ends_of(impl[i + 1], with_line=False)
+        n += 1
+        if a != b and len(ctx.failing) < 4:
+            ctx.failing.append({'stream': 'fs-respell', 'why': 'spelling a path ./p instead of p changed what the file built-ins return', 'source': cases[i + 1]['src'],
+                                'case_line': lines[i + 1], 'implementation': str(b)[:1000], 'plain_source': cases[i]['src'], 'plain_result': str(a)[:1000]})
+    ctx.evaluations += len(cases); ctx.validated += len(cases)
+    ctx.streams.append({'stream': 'fs-respell', 'cases': len(cases), 'pairs': n, 'rule': 'implementation-only metamorphic pairs: plain paths vs the same paths spelled ./p or .//p'})
 
 
 def stream_stdin(ctx):
